@@ -103,11 +103,14 @@ class Prop:
             for g in mut.gen_exhaustive(3, typed=(True,)):
                 for i in range(0, len(g["alts"]), CHUNK):
                     yield dict(kind="alts", univ=g["univ"], setup=g["setup"], alts=g["alts"][i:i + CHUNK], label=g["label"] + "/typed")
+        # op X; one non-adding mutation; op X again verbatim (memo / cache not reset by the mutator in between)
+        for h in mut.gen_sort_triples(3, quick=quick):
+            yield dict(kind="hist", univ=h["univ"], ops=h["ops"])
         # metadata histories: the same update payload reaches several nodes, which are then edited one by one
         for i in range(6 if quick else 40):
             h = mut.gen_random(rng, rng.randint(10, 20), ntrees=1, ops=["meta"] * 7 + ["add"])
             yield dict(kind="hist", univ=h["univ"], ops=h["ops"])
-        nrand = 30 if quick else 450
+        nrand = 24 if quick else 380
         for i in range(nrand):
             n_ops = rng.randint(8, 25 if quick else 40)
             h = (mut.gen_malformed if i % 3 == 2 else mut.gen_random)(rng, n_ops)
